@@ -587,15 +587,28 @@ class SpecModel:
             return Opaque("subscript " + norm(node)[:60])
         if isinstance(node, ast.Dict):
             items = []
+            spread = set()   # positions that came from a `**other` part: a later entry with the same key replaces them in place
+
+            def put(kv, vv, kn, from_spread):
+                for i, (k0, _v0, _n0) in enumerate(items):
+                    if same_key(k0, kv) and (i in spread or from_spread):
+                        items[i] = (k0, vv, kn)      # dict semantics: the first position, the last value
+                        if not from_spread:
+                            spread.discard(i)
+                        return
+                items.append((kv, vv, kn))
+                if from_spread:
+                    spread.add(len(items) - 1)
             for k, v in zip(node.keys, node.values):
                 if k is None:
                     inner = ev(v)
                     if isinstance(inner, DictV):
-                        items.extend(inner.items)
+                        for k1, v1, n1 in inner.items:
+                            put(k1, v1, n1, True)
                     else:
                         return Opaque("dict unpacking of non-dict")
                 else:
-                    items.append((ev(k), ev(v), k))
+                    put(ev(k), ev(v), k, False)   # (two literal entries with the same key are both kept: C20 reports them)
             return DictV(items, node, mod)
         if isinstance(node, (ast.Tuple, ast.List)):
             return TupleV([ev(e) for e in node.elts])
